@@ -66,8 +66,8 @@ example : commitCmd { maxTx := 1, amount := 2500, currency := 978, password := 0
 /-- the literals the model's requests are built with are the constants of the source (read by the translator on
 this run): payment type 40, BMP-60 prefix "AC", registration config byte DE. -/
 theorem request_constants_match_source :
-    (Generated.consts.find? (·.1 == "PAYMENT_TYPE")).map (·.2) = some "Some(0x40)" ∧
+    (Generated.consts.find? (·.1 == "PAYMENT_TYPE")).map (·.2) = some "Some(64)" ∧
     (Generated.consts.find? (·.1 == "BMP_PREFIX")).map (·.2) = some "\"AC\"" ∧
-    (Generated.consts.find? (·.1 == "CONFIG_BYTE")).map (·.2) = some "0xde" := by decide +kernel
+    (Generated.consts.find? (·.1 == "CONFIG_BYTE")).map (·.2) = some "222" := by decide +kernel
 
 end Zvt.C08
